@@ -125,7 +125,7 @@ def scope(model, family: str, schema_id: str, size: int, **over) -> dict:
         }
     elif family == "topmarks":
         s = {
-            "types": ["doc", "paragraph", "horizontal_rule", "blockquote", "text"],
+            "types": ["doc", "paragraph", "horizontal_rule", "blockquote", "code_block", "text"],
             "texts": ["a"],
             "marksets": _ms(model, [], [EM]),
             "node_marks": {
@@ -138,7 +138,8 @@ def scope(model, family: str, schema_id: str, size: int, **over) -> dict:
             "types": ["doc", "para", "widget", "text"],
             "texts": ["a"],
             "marksets": _ms(model, [], [("note", {"id": 1})], [("note", {"id": 1}), ("note", {"id": 2})],
-                            [("note", {"id": 1, "tags": ["x", {"y": 1}]}), ("em", None)]),
+                            [("note", {"id": 1, "tags": ["x", {"y": 1}]}), ("em", None)],
+                            [("note", {"id": 1}), ("tag", None)], [("tag", None)]),
             "attrs": {
                 "para": [{}, {"data": {"z": [1, 2]}, "n": 5}],
                 "widget": [{"id": 7}, {"id": "w", "cfg": {"deep": [1, {"k": "v"}]}}],
@@ -158,7 +159,7 @@ def scope(model, family: str, schema_id: str, size: int, **over) -> dict:
             if rmk.is_canonical(model, ms) and ms not in msets:
                 msets.append(ms)
         s = {
-            "types": ["doc", "paragraph", "plain", "p_A", "p_grp", "text", "atom"],
+            "types": ["doc", "paragraph", "plain", "p_A", "p_grp", "text", "atom", "chip", "span"],
             "texts": ["a", "bc"],
             "marksets": msets,
             "max_children": 3,
